@@ -30,6 +30,8 @@ pub const A_ADVANCE: u32 = 1 << 9;
 pub const A_DROPROOT: u32 = 1 << 10;
 pub const A_PARKPOLL: u32 = 1 << 11;
 pub const A_REORDER: u32 = 1 << 12;
+/// another thread may run while the dispatch is inside the transport's `start_send`
+pub const A_PARKSEND: u32 = 1 << 13;
 
 pub type MT = MockTransport<ClientMessage<u32>, Response<u32>>;
 type CallFut = Pin<Box<dyn Future<Output = Result<u32, RpcError>>>>;
@@ -634,7 +636,11 @@ impl World {
                 };
                 let prev = self.log.begin_poll(Task::Dispatch(0));
                 let mut cx = Context::from_waker(&waker);
+                if self.has(A_PARKSEND) && !self.free.get() {
+                    self.st.borrow_mut().park_armed = true;
+                }
                 let r = catch_unwind(AssertUnwindSafe(|| d.as_mut().poll(&mut cx)));
+                self.st.borrow_mut().park_armed = false;
                 match r {
                     Ok(Poll::Pending) => {
                         self.log.end_poll(Task::Dispatch(0), prev, false);
@@ -925,6 +931,14 @@ pub fn execute(cfg: &CCfg, prefix: &[u16], suppress_stray: Option<u32>) -> Exec 
                 w.on_yield(label);
             }
         })));
+        if cfg.alphabet & A_PARKSEND != 0 {
+            let weak2: Weak<World> = Rc::downgrade(&w);
+            w.core.borrow_mut().op_hook = Some(Rc::new(move |label| {
+                if let Some(w) = weak2.upgrade() {
+                    w.on_yield(label);
+                }
+            }));
+        }
         w.fingerprint();
         if cfg.start_age_ms > 0 {
             tokio::time::advance(Duration::from_millis(cfg.start_age_ms as u64)).await;
